@@ -1694,6 +1694,9 @@ class Executor:
                 store.finite = lambda p: self.ite(inside(p), vfin(local(p)), oldfin(p))
             else:
                 store.finite = lambda p: z3.Or(inside(p), to_bool(oldfin(p)))
+        elif vf is not None and isinstance(v, SArr) and vfin is not None:
+            # non-finite values stored into an array that was finite everywhere
+            store.finite = lambda p: self.ite(inside(p), vfin(local(p)), z3.BoolVal(True))
 
     def fancy_write(self, a, ix, v, st):
         """table[S] = V for a 1-D table with identity, S a 1-D integer sequence, V a scalar or a
